@@ -1,6 +1,8 @@
 ----------------------------- MODULE MC_Writer -----------------------------
 EXTENDS Writer, Json
 \* rank 0 is a byte below '=' (a digit): "a" < "a1", although "a1=v" < "a=v" as rendered parameters
-MCKeyPool == { <<2>>, <<3>>, <<1>>, <<2, 2>>, <<2, 1>>, <<3, 1>>, <<4>>, <<1, 4>>, <<2, 0>>, <<3, 0, 2>> }
+\* ranks 5 and 6 are a BMP character above U+E000 (three UTF-8 bytes EF..) and a supplementary-plane character (four bytes F0..):
+\* ascending BYTE order puts 5 before 6, UTF-16 code-unit order (Java's String.compareTo) the other way round
+MCKeyPool == { <<2>>, <<3>>, <<1>>, <<2, 2>>, <<2, 1>>, <<3, 1>>, <<4>>, <<1, 4>>, <<2, 0>>, <<3, 0, 2>>, <<5>>, <<6>> }
 Export == pc = "done" => PrintT(ToJson([supplied |-> supplied, emitted |-> emitted]))
 =============================================================================
